@@ -39,6 +39,10 @@ def run_save(ctx, n, lead, trail, start, end, midnight, rng, nan_pixels=True):
     from pygac import gac_io
     m = 5
     prods = {p: tagged(n, m, k + 1, kelvin=p.startswith("bt")) for k, p in enumerate(PRODUCTS)}
+    # azimuths are signed, temperatures below freezing are negative in degrees Celsius: truncation is toward zero
+    prods["sun_azi"] = -prods["sun_azi"]
+    prods["sat_azi"][::2] = -prods["sat_azi"][::2]
+    prods["bt4"] = prods["bt4"] - 2.0 * np.arange(n)[:, None]
     lats = np.arange(n, dtype=float)[:, None] * 0.1 + 0.0005 + np.zeros((1, m)) - 5.0
     lons = np.arange(n, dtype=float)[:, None] * 0.2 + 0.0005 + np.zeros((1, m)) - 7.0
     lats[:lead] = np.nan
